@@ -40,6 +40,8 @@ deriving DecidableEq, Repr
 
 def isRequest (c : Nat) : Bool := 1 ≤ c && c < 32
 def isResponse (c : Nat) : Bool := 64 ≤ c && c < 192
+/-- `Code.is_successful` (`numbers/codes.py:89-91`): class 2.xx -/
+def isSuccessful (c : Nat) : Bool := 64 ≤ c && c < 96
 def codeClass (c : Nat) : Nat := c / 32
 
 /-- `messageerror_monitor` of a sent message -/
@@ -315,7 +317,9 @@ def processResponse (s : State) (remote : Remote) (w : Wire) : State × List Out
   match hit with
   | none => (s, [], false)
   | some o =>
-    let final := !(o.observing && w.obs.isSome)
+    -- `tokenmanager.py:208-212`: only a successful response with Observe option to a request that
+    -- asked to observe is a notification (RFC 7641 §4.2: non-2.xx responses carry no Observe)
+    let final := !(o.observing && w.obs.isSome && isSuccessful w.code)
     let s1 := if final then dropOutgoing s o.req else s
     (s1, [.response o.req w final], true)
 
